@@ -177,6 +177,22 @@ Theorem C12_from_int_binary_func : forall func in_len out_len big_endian a1 a2,
             = func (index_of (endian big_endian a1)) (index_of (endian big_endian a2)) mod 2 ^ out_len.
 Proof. exact int_binary_bit_order. Qed.
 
+(* the constructors: PyFunction(func, n) (output size read off func([False]*n)) and the wrappers *)
+Theorem C12_pyfunction_constructor : forall func f n m, arity_ok f n m ->
+  (forall x, length x = n -> func x = Ok (f x)) ->
+  exists p, py_make func n None = Ok p /\ py_computes p f n m.
+Proof. exact py_make_computes. Qed.
+
+Theorem C12_from_int_unary_func_sizes : forall func in_len out_len big_endian,
+  exists p, from_int_unary_func func in_len out_len big_endian = Ok p /\ py_n p = in_len /\ py_m p = out_len
+            /\ py_func p = int_unary_callable func in_len out_len big_endian.
+Proof. exact from_int_unary_sizes. Qed.
+
+Theorem C12_from_int_binary_func_sizes : forall func in_len out_len big_endian,
+  exists p, from_int_binary_func func in_len out_len big_endian = Ok p /\ py_n p = 2 * in_len /\ py_m p = out_len
+            /\ py_func p = int_binary_callable func in_len out_len big_endian.
+Proof. exact from_int_binary_sizes. Qed.
+
 (* ---- the correspondence check memoises the circuit's evaluations; that is sound ---- *)
 Theorem C12_memoised_circuit_queries : forall c q,
   run_query ClsCircuit (circ_rep_memo c) q = circuit_query c q.
